@@ -1180,4 +1180,143 @@ def F.mant (f : F) : Int := if f.size < 0 then -(val f.d : Int) else (val f.d : 
 theorem truncToDouble_zero (e : Int) : truncToDouble 0 e = 0 := by
   simp [truncToDouble, truncate53, encode, mkBits, boolToNat]
 
+/-- limb exponent of the least significant limb: value = mant · B^lowExp -/
+def F.lowExp (f : F) : Int := f.exp - f.size.natAbs
+
+/-- low limb non-zero (or empty) -/
+def HeadNZ (l : List Nat) : Prop := l.head? ≠ some 0
+
+theorem stripLow_cons (x : Nat) (xs : List Nat) :
+    stripLow (x :: xs) = if x = 0 then stripLow xs else x :: xs := by
+  unfold stripLow
+  by_cases h : x = 0
+  · subst h; simp
+  · simp [h]
+
+theorem stripLow_headNZ : ∀ l : List Nat, HeadNZ (stripLow l)
+  | [] => by simp [HeadNZ, stripLow]
+  | x :: xs => by
+    rw [stripLow_cons]
+    by_cases h : x = 0
+    · rw [if_pos h]; exact stripLow_headNZ xs
+    · rw [if_neg h]; simp [HeadNZ, h]
+
+theorem stripLow_val : ∀ l : List Nat, (stripLow l).length ≤ l.length ∧
+    val l = B ^ (l.length - (stripLow l).length) * val (stripLow l)
+  | [] => by simp [stripLow]
+  | x :: xs => by
+    rw [stripLow_cons]
+    obtain ⟨h1, h2⟩ := stripLow_val xs
+    by_cases h : x = 0
+    · rw [if_pos h]
+      refine ⟨by simp; omega, ?_⟩
+      have : (x :: xs).length - (stripLow xs).length = (xs.length - (stripLow xs).length) + 1 := by simp; omega
+      rw [this, pow_succ, val_cons, h, h2]; ring
+    · rw [if_neg h]; simp
+
+theorem Limbs_stripLow {l : List Nat} (h : Limbs l) : Limbs (stripLow l) :=
+  fun x hx => h x ((List.dropWhile_sublist _).subset hx)
+
+theorem val_take_pos {s : List Nat} (hh : HeadNZ s) {j : Nat} (h1 : 1 ≤ j) (h2 : j ≤ s.length) : 0 < val (s.take j) := by
+  cases s with
+  | nil => simp at h2; omega
+  | cons h t =>
+    have hne : h ≠ 0 := by intro e; subst e; exact hh (by simp)
+    obtain ⟨j', rfl⟩ : ∃ j', j = j' + 1 := ⟨j - 1, by omega⟩
+    rw [List.take_succ_cons, val_cons]; omega
+
+/-- the mantissa comparison of mpf_cmp on stripped operands, on a common top-aligned scale K -/
+theorem mpf_cmp_limbs_spec (up vp : List Nat) (hu : Limbs up) (hv : Limbs vp) (hhu : HeadNZ up) (hhv : HeadNZ vp)
+    (usign : Int) (K : Nat) (hK1 : up.length ≤ K) (hK2 : vp.length ≤ K) :
+    mpf_cmp_limbs up vp usign =
+      usign * sgn ((val up : Int) * ((B ^ (K - up.length) : Nat) : Int) - (val vp : Int) * ((B ^ (K - vp.length) : Nat) : Int)) := by
+  unfold mpf_cmp_limbs
+  dsimp only
+  by_cases g : up.length > vp.length
+  · rw [if_pos g]
+    have hk : 1 ≤ up.length - vp.length := by omega
+    have e := val_take_drop up (up.length - vp.length) (by omega)
+    have lo_pos := val_take_pos hhu hk (by omega)
+    have lo_lt : val (up.take (up.length - vp.length)) < B ^ (up.length - vp.length) := by
+      have := val_lt _ (Limbs_take hu (up.length - vp.length))
+      rwa [List.length_take, Nat.min_eq_left (by omega)] at this
+    rw [cmp_spec _ _ (Limbs_drop hu _) hv (by rw [List.length_drop]; omega)]
+    have hP : B ^ (K - vp.length) = B ^ (K - up.length) * B ^ (up.length - vp.length) := by
+      rw [← pow_add]; congr 1; omega
+    rw [hP, e]
+    generalize val (up.take (up.length - vp.length)) = lo at *
+    generalize val (up.drop (up.length - vp.length)) = hi at *
+    generalize B ^ (up.length - vp.length) = P at *
+    push_cast
+    have hS : (0 : Int) < (B : Int) ^ (K - up.length) := pow_pos (by exact_mod_cast B_pos) _
+    generalize (B : Int) ^ (K - up.length) = S at *
+    have T : ((lo : Int) + P * hi) * S - (val vp : Int) * (S * P) = S * (lo + P * (hi - val vp)) := by ring
+    rw [T, sgn_mul_pos hS]
+    have hlo : (0 : Int) < lo := by exact_mod_cast lo_pos
+    have hlt : (lo : Int) < P := by exact_mod_cast lo_lt
+    have hPp : (0 : Int) < P := by linarith
+    rcases lt_trichotomy ((hi : Int) - val vp) 0 with h | h | h
+    · rw [sgn_neg h, if_neg (by decide), if_neg (by decide)]
+      have : (P : Int) * (hi - val vp) ≤ P * (-1) := mul_le_mul_of_nonneg_left (by omega) (le_of_lt hPp)
+      rw [sgn_neg (by linarith)]; ring
+    · rw [h, sgn_zero, if_pos rfl, mul_zero, add_zero, sgn_pos hlo]; ring
+    · rw [sgn_pos h, if_neg (by decide), if_pos (by decide)]
+      have : (0 : Int) < P * (hi - val vp) := mul_pos hPp h
+      rw [sgn_pos (by linarith)]; ring
+  · rw [if_neg g]
+    by_cases g2 : vp.length > up.length
+    · rw [if_pos g2]
+      have hk : 1 ≤ vp.length - up.length := by omega
+      have e := val_take_drop vp (vp.length - up.length) (by omega)
+      have lo_pos := val_take_pos hhv hk (by omega)
+      have lo_lt : val (vp.take (vp.length - up.length)) < B ^ (vp.length - up.length) := by
+        have := val_lt _ (Limbs_take hv (vp.length - up.length))
+        rwa [List.length_take, Nat.min_eq_left (by omega)] at this
+      rw [cmp_spec _ _ hu (Limbs_drop hv _) (by rw [List.length_drop]; omega)]
+      have hP : B ^ (K - up.length) = B ^ (K - vp.length) * B ^ (vp.length - up.length) := by
+        rw [← pow_add]; congr 1; omega
+      rw [hP, e]
+      generalize val (vp.take (vp.length - up.length)) = lo at *
+      generalize val (vp.drop (vp.length - up.length)) = hi at *
+      generalize B ^ (vp.length - up.length) = P at *
+      push_cast
+      have hS : (0 : Int) < (B : Int) ^ (K - vp.length) := pow_pos (by exact_mod_cast B_pos) _
+      generalize (B : Int) ^ (K - vp.length) = S at *
+      have T : (val up : Int) * (S * P) - ((lo : Int) + P * hi) * S = S * (P * (val up - hi) - lo) := by ring
+      rw [T, sgn_mul_pos hS]
+      have hlo : (0 : Int) < lo := by exact_mod_cast lo_pos
+      have hlt : (lo : Int) < P := by exact_mod_cast lo_lt
+      have hPp : (0 : Int) < P := by linarith
+      rcases lt_trichotomy ((val up : Int) - hi) 0 with h | h | h
+      · rw [sgn_neg h, if_neg (by decide), if_neg (by decide)]
+        have : (P : Int) * (val up - hi) ≤ P * (-1) := mul_le_mul_of_nonneg_left (by omega) (le_of_lt hPp)
+        rw [sgn_neg (by linarith)]; ring
+      · rw [h, sgn_zero, if_pos rfl, mul_zero, zero_sub, sgn_neg (by linarith)]; ring
+      · rw [sgn_pos h, if_neg (by decide), if_pos (by decide)]
+        have : (P : Int) * 1 ≤ P * (val up - hi) := mul_le_mul_of_nonneg_left (by omega) (le_of_lt hPp)
+        rw [sgn_pos (by linarith)]; ring
+    · rw [if_neg g2]
+      have hl : up.length = vp.length := by omega
+      rw [cmp_spec _ _ hu hv hl, hl]
+      have hS : (0 : Int) < ((B ^ (K - vp.length) : Nat) : Int) := by exact_mod_cast Bpow_pos _
+      generalize ((B ^ (K - vp.length) : Nat) : Int) = S at *
+      have T : (val up : Int) * S - (val vp : Int) * S = S * (val up - val vp) := by ring
+      rw [T, sgn_mul_pos hS]
+      rcases lt_trichotomy ((val up : Int) - val vp) 0 with h | h | h
+      · rw [sgn_neg h, if_neg (by decide), if_neg (by decide)]; ring
+      · rw [h, sgn_zero, if_pos rfl]; ring
+      · rw [sgn_pos h, if_neg (by decide), if_pos (by decide)]; ring
+
+theorem F.wf_bounds {f : F} (h : f.wf) :
+    (f.size = 0 → val f.d = 0) ∧ (f.size ≠ 0 → B ^ (f.size.natAbs - 1) ≤ val f.d) ∧ val f.d < B ^ f.size.natAbs := by
+  obtain ⟨hl, hL, ht, _⟩ := h
+  refine ⟨fun h0 => val_eq_zero_of_nil (by rw [hl, h0]; rfl), fun hn => ?_, by rw [← hl]; exact val_lt _ hL⟩
+  have hne : f.d ≠ [] := by intro e; rw [e] at hl; simp at hl; omega
+  rw [← hl]; exact val_ge_of_top _ hne ht
+
+theorem sgn_usign_mul (s X : Int) (hs : s = 1 ∨ s = -1) : sgn (s * sgn X) = sgn (s * X) := by
+  rcases hs with h | h
+  · rw [h, one_mul, one_mul, sgn_sgn]
+  · rw [h, neg_one_mul, neg_one_mul, sgn_neg_eq, sgn_sgn, sgn_neg_eq]
+
 end Mpir.Conv
